@@ -25,6 +25,7 @@ def run(ctx: Ctx) -> list[Ob]:
     obs += [o for o in r6.r6d(ctx) if o.instance.split(':')[0] in ('returns-compiled', 'maps', 'known', 'active-context')]
     obs += r3.r3k(ctx)
     obs += r10.r10n(ctx)
+    obs += r2.r2e(ctx)
     return obs
 
 
@@ -42,6 +43,7 @@ SPEC = PropSpec(
         " R6r: compile_tensor_parameter allocates (and registers) a torch tensor only when the symbolic tensor has no compiled counterpart yet -- a second circuit sharing symbolic layers references the first compilation instead of overwriting the registry. R6q: resets / initialisers follow parameter graphs, never torch's module tree (which contains the tensors pointers refer to). R6s (per-instance state): no mutable container bound in a class body of cirkit.backend / cirkit.pipeline (the compile path) is mutated through self without an __init__ rebinding it (ClassVar registries excepted) -- a class-level `_compiled_parameters = {}` would be one symbolic -> compiled registry for every compiler, and a circuit derived in one context would point at the tensors another context compiled last. R6d ('compiled in the same pipeline context'): every PipelineContext operator method checks and maps its operands through its own compiler and returns self.compile(result) -- not the module-level compile(), which dispatches to whichever context is active; the module-level functions resolve the active context."
         " R3k: every constructor hyper-parameter of a concrete symbolic layer (everything but its params and *_factory alternatives) is a key of its config and round-trips through it -- Layer.copyref(), the copy every operator makes of a layer it does not transform, rebuilds the layer from config (a constant layer that loses log_space is read as linear by the next operator)."
         ' R10n: a parameter node that holds another node (TorchPointerParameter) evaluates the stored target in forward and never returns a tensor bound from it elsewhere (reset_parameters, the constructor): a bound tensor follows in-place updates and silently stops following the operand when the operand re-allocates.'
+        " R2e: the integral rules compute the partition function from the operand's own parameters along the axis that holds the categories / states (a constant is emitted only for a parameterisation that is normalised along that axis): otherwise the relation between a derived partition function and its operand fails at compile time and after every update."
     ),
     not_decided="numerical relations after parameter updates (they follow from single storage, which is what is decided).",
     run=run,
